@@ -79,9 +79,7 @@ func init() {
 					cancellable = append(cancellable, op.It.N)
 				}
 			}
-			// (round robin only: with MaxLen/MinLen a cancelled head of a queue that ties with another one may or
-			// may not have been dropped, depending on a tie-break the property leaves open)
-			if c.Cfg.Strategy == 0 && len(cancellable) > 0 && rapid.IntRange(0, 2).Draw(t, "withcancel") == 0 {
+			if len(cancellable) > 0 && rapid.IntRange(0, 2).Draw(t, "withcancel") == 0 {
 				for i := 0; i < rapid.IntRange(1, 3).Draw(t, "ncancel"); i++ {
 					ops = append(ops, Op{Op: "close", N: pick(t, "cancelwhich", cancellable)})
 				}
